@@ -71,7 +71,18 @@ func init() {
 	es, _ := keyFS.ReadDir("keys")
 	for _, e := range es {
 		n := e.Name()
-		LoadKey(n[:len(n)-4])
+		k := LoadKey(n[:len(n)-4])
+		if k.Kind == "rsa2048" {
+			// "<name>~nonull": the same key pair published with a valid but non-canonical
+			// SubjectPublicKeyInfo (rsaEncryption AlgorithmIdentifier without the NULL parameters,
+			// as some CAs issue). Whatever hashes "the issuer's key" must hash these bytes,
+			// not a re-encoding of the parsed key.
+			pub := k.Priv.Public().(*rsa.PublicKey)
+			pk1 := stdx509.MarshalPKCS1PublicKey(pub)
+			spki := der.Seq(der.Seq(der.OID(1, 2, 840, 113549, 1, 1, 1)), der.BitString(pk1, 0))
+			v := &Key{Name: k.Name + "~nonull", Priv: k.Priv, SPKI: spki, Kind: k.Kind}
+			keyCache[v.Name] = v
+		}
 	}
 }
 
